@@ -162,6 +162,47 @@ func c04Case(mn string, mode int, org int64, d int, fill int, labelsAfter bool, 
 	return &ProgCase{P: p, Prop: "C04", Ctx: ctx, Cell_: fmt.Sprintf("%s m%d %s %s %s after=%v", mn, mode, tk, dir, distClass(d), labelsAfter)}
 }
 
+// c04Switch: the branch stands right after (or long before) a [BITS] directive
+// that changes the mode: its form must be the one of the mode in force where
+// it stands, whatever the mode of its neighbours and of the end of the file.
+func c04Switch(mn string, layout int, d int, org int64, from int) *ProgCase {
+	to := 48 - from // 16 <-> 32
+	p := Prog{}
+	if org >= 0 {
+		p.Stmts = append(p.Stmts, PStmt{K: "org", N: org})
+	}
+	if from == 32 {
+		p.Stmts = append(p.Stmts, PStmt{K: "bits", N: 32})
+	}
+	br := PStmt{K: "jmp", Mn: mn, Label: "target"}
+	fill := func(n int) []PStmt { return filler(2, n) }
+	mov := func(mode int) PStmt { return PStmt{K: "inst", X: mkInst("NOP", mode)} }
+	names := []string{"switch-branch-fwd", "switch-branch-back", "branch-first-switch-later", "label-switch-branch"}
+	switch layout {
+	case 0: // code, switch, branch forward
+		p.Stmts = append(p.Stmts, mov(from), PStmt{K: "bits", N: int64(to)}, br)
+		p.Stmts = append(p.Stmts, fill(d)...)
+		p.Stmts = append(p.Stmts, PStmt{K: "label", Label: "target"}, PStmt{K: "inst", X: mkInst("HLT", to)})
+	case 1: // target, filler, switch, branch backward
+		p.Stmts = append(p.Stmts, PStmt{K: "label", Label: "target"})
+		p.Stmts = append(p.Stmts, fill(d)...)
+		p.Stmts = append(p.Stmts, PStmt{K: "bits", N: int64(to)}, br, PStmt{K: "inst", X: mkInst("HLT", to)})
+	case 2: // the branch is the first statement of the file, the mode changes later
+		p.Stmts = append(p.Stmts, br)
+		p.Stmts = append(p.Stmts, fill(d)...)
+		p.Stmts = append(p.Stmts, PStmt{K: "label", Label: "target"}, mov(from), PStmt{K: "bits", N: int64(to)},
+			PStmt{K: "label", Label: "spin"}, PStmt{K: "inst", X: mkInst("HLT", to)}, PStmt{K: "jmp", Mn: "JMP", Label: "spin"})
+	default: // switch, label, branch to a label after it, then back to the first mode
+		p.Stmts = append(p.Stmts, mov(from), PStmt{K: "bits", N: int64(to)}, PStmt{K: "label", Label: "entry"}, br)
+		p.Stmts = append(p.Stmts, fill(d)...)
+		p.Stmts = append(p.Stmts, PStmt{K: "label", Label: "target"}, PStmt{K: "inst", X: mkInst("HLT", to)},
+			PStmt{K: "bits", N: int64(from)}, PStmt{K: "jmp", Mn: "JMP", Label: "entry"}, PStmt{K: "label", Label: "zend"},
+			PStmt{K: "data", W: 2, Items: []DItem{{Kind: "label", Label: "zend", Text: "zend"}}})
+	}
+	ctx := fmt.Sprintf("%s|label|%s|%s", branchClass(mn), names[layout], distClass(d))
+	return &ProgCase{P: p, Prop: "C04", Ctx: ctx, Cell_: fmt.Sprintf("%s %d->%d %s %s", mn, from, to, names[layout], distClass(d))}
+}
+
 // FarCase: JMP seg:off
 type FarCase struct {
 	Mode  int    `json:"mode"`
@@ -274,6 +315,20 @@ func init() {
 					}
 				}
 			}
+			for _, mn := range mns {
+				for layout := 0; layout < 4; layout++ {
+					for _, d := range []int{0, 5, 126, 131} {
+						k++
+						if env.Tier == "quick" && k%2 != 0 {
+							continue
+						}
+						if layout == 3 && d > 100 {
+							d -= 40 // the JMP back to `entry` stays within rel8 (16-bit relaxation is finding F401, not this family's subject)
+						}
+						add(c04Switch(mn, layout, d, orgs[k%len(orgs)], mode))
+					}
+				}
+			}
 			for _, sel := range []int64{0, 1, 8, 0x10, 0x7fff, 0x8000, 0xffff} {
 				for _, off := range []int64{0, 1, 8, 0x10, 0x1b, 0x7fff, 0x8000, 0xffff, 0x10000, 0x7fffffff, 0xffffffff} {
 					for _, dw := range []bool{false, true} {
@@ -283,7 +338,7 @@ func init() {
 				}
 			}
 		}
-		rep.Rule = "one program per (31 jump mnemonics + CALL) x displacement d in [-140,140] and +-{32760..32775} measured from the end of the shortest form x forward/backward x filler (RESB, NOPs, DB) x label/numeric target x ORG in {none,0x100,0x7c00,0xfff0} x BITS, with and without labels after the branch; far JMP seg:off (with/without DWORD) for boundary selector/offset values; " +
+		rep.Rule = "one program per (31 jump mnemonics + CALL) x displacement d in [-140,140] and +-{32760..32775} measured from the end of the shortest form x forward/backward x filler (RESB, NOPs, DB) x label/numeric target x ORG in {none,0x100,0x7c00,0xfff0} x BITS, with and without labels after the branch; every mnemonic right after / long before a [BITS] directive that changes the mode (4 layouts x 4 distances x both directions of the switch); far JMP seg:off (with/without DWORD) for boundary selector/offset values; " +
 			"oracle: the walker finds the branch, the reference decoder gives its condition and displacement, address(next)+disp must equal the true address of the target statement, and a label after the branch must have its true value (size agreement); " +
 			"thorough enumerates the whole product, quick takes every mnemonic at every boundary distance plus a seeded sample; non-trivial = accepted and judged; distinct = (mnemonic, mode, target kind, direction, distance class, labels-after) cells"
 		if env.Tier == "thorough" {
